@@ -1,52 +1,26 @@
-"""Developer driver: python3-vt -m pyvc.dev <module:qualname> ..."""
-import sys, time, importlib, traceback
-from . import source, engine, vc as vcmod
-from .core import *
+"""Developer driver: python3-vt -m pyvc.dev [-v] <module:qualname | lemma name> ..."""
+import sys, os
+sys.path.insert(0, os.path.dirname(os.path.dirname(os.path.abspath(__file__))))
+from pyvc import source, vc as vcmod, check
 
 
-def load_contracts():
-    import contracts.vocabulary as voc, contracts.schema as sch
-    C = {}
-    for m in ('generator_shared', 'fileIO', 'generator_spa', 'generator_ha_sm_hr', 'model', 'brute_force_solver',
-              'options_parser', 'instance_options_parser', 'lp_solver', 'solver', 'generator'):
-        try: mod = importlib.import_module('contracts.' + m)
-        except ModuleNotFoundError: continue
-        C.update(mod.CONTRACTS)
-    return C, voc.DEFS, sch.CLASSES
-
-
-def models():
-    out = []
-    for m in ('models_basic',):
-        try: out.append(importlib.import_module('pyvc.' + m))
-        except ModuleNotFoundError: pass
-    return out
-
-
-def run(keys, repo=None, verbose=True):
-    repo = repo or source.Repo()
-    C, defs, classes = load_contracts()
-    allv = []; infos = []
-    for k in keys:
-        ex = engine.Exec(repo, C, classes, defs, models())
-        t0 = time.time()
-        try:
-            vcs, info = ex.verify(k)
-        except (Undecided, StaleContract) as e:
-            print('%-60s %s: %s' % (k, type(e).__name__, e)); continue
-        info['gen_s'] = time.time() - t0
-        allv += vcs; infos.append(info)
-    t0 = time.time(); vcmod.discharge(allv); dt = time.time() - t0
+def run(keys, verbose=False, opts=None):
+    repo = source.Repo()
+    C, defs, classes, LEMMAS = check.load_all()
+    spec = dict(functions=[(k, opts) if opts else k for k in keys if k not in LEMMAS], lemmas=[k for k in keys if k in LEMMAS])
+    vcs, infos, und = check.generate('DEV', spec, repo, C, defs, classes, LEMMAS)
+    vcmod.discharge(vcs)
     byf = {}
-    for v in allv: byf.setdefault(v.func, []).append(v)
+    for v in vcs: byf.setdefault(v.func, []).append(v)
     for f, vs in byf.items():
         bad = [v for v in vs if vcmod.status(v) != 'proved']
         print('%-60s %3d VCs  %s  (solve %.2fs)' % (f, len(vs), 'all proved' if not bad else 'FAILED', sum(v.time for v in vs)))
-        for v in bad:
-            print('    %-50s %s  %s' % (v.name, vcmod.status(v), (v.model or '')[:300]))
-    return allv
+        for v in (vs if verbose else bad):
+            print('    %-70s %s %.2fs %s' % (v.name, vcmod.status(v), v.time, (v.model or '')[:400] if vcmod.status(v) != 'proved' else ''))
+    for u in und: print('UNDECIDED %s: %s' % (u['function'], u['reason']))
+    return vcs
 
 
 if __name__ == '__main__':
-    sys.path.insert(0, '/verif')
-    run(sys.argv[1:])
+    a = sys.argv[1:]; verbose = '-v' in a
+    run([x for x in a if x != '-v'], verbose)
